@@ -455,6 +455,47 @@ func c06R2(c *Ctx) {
 			}
 		}
 	}
+	// universal form: every path from the entry to the trigger return goes through the look-ahead loop, except over
+	// the edge on which the text after the trigger was found too short to hold a finish word
+	{
+		var header *ssa.BasicBlock
+		for _, ci := range callsIn(det, idIs("bytes.Contains")) {
+			sl, ok := strip(ci.Common().Args[0]).(*ssa.Slice)
+			if !ok || sl.Low == nil {
+				continue
+			}
+			// innermost loop header dominating the call: a block with a predecessor it dominates
+			for b := ci.Block(); b != nil; b = b.Idom() {
+				isHdr := false
+				for _, p := range b.Preds {
+					if b.Dominates(p) {
+						isHdr = true
+					}
+				}
+				if isHdr {
+					header = b
+					break
+				}
+			}
+		}
+		var trigRet ssa.Instruction
+		eachInstr(det, func(in ssa.Instruction) {
+			if r, ok := in.(*ssa.Return); ok && len(r.Results) == 2 && !isNilConst(r.Results[1]) {
+				trigRet = in
+			}
+		})
+		if header == nil || trigRet == nil {
+			c.undecided("detect/lookahead-on-every-path", "look-ahead loop or trigger return not found")
+		} else {
+			short := func(from, to *ssa.BasicBlock) bool {
+				isLen := func(v ssa.Value) bool { lc, _ := callOf(v); return lc != nil && calleeID(&lc.Call) == "builtin len" }
+				fs := edgeFactsTo(from, to)
+				return factCmp(fs, token.LEQ, isLen, isConstIntV(40)) || factCmp(fs, token.LSS, isLen, isConstIntV(41))
+			}
+			hit, path := reachFromE(det.Blocks[0], 0, func(in ssa.Instruction) bool { return in == trigRet }, func(in ssa.Instruction) bool { return in.Block() == header }, short)
+			c.check(hit == nil, "detect/lookahead-on-every-path", c.ipos(trigRet), "no trigger is returned without the finished-transfer look-ahead (unless nothing follows the trigger)", "a trigger can be returned without looking at what follows it: scroll-back of a finished transfer starts a new one", c.pathStr(path)...)
+		}
+	}
 	c.check(look, "detect/finished-lookahead", c.pos(det.Pos()), "text after the trigger containing a finish word suppresses it", "the finished-transfer look-ahead no longer suppresses the trigger")
 }
 
